@@ -28,6 +28,20 @@ Theorem C14_sorted_prices_unique : forall l l' : list Z,
 Proof. exact sorted_desc_unique. Qed.
 Print Assumptions C14_sorted_prices_unique.
 
+(* the result of a batch matching does not depend on the order in which the store hands over the recorded bids:
+   same clearing price, matched bids, total, ordered bidder list, allocations and refunds *)
+Theorem C14_matching_store_order : forall a bs bs' order al,
+  Permutation bs bs' ->
+  match calc_batch a bs order al, calc_batch a bs' order al with
+  | Some m, Some m' =>
+      mi_price m = mi_price m' /\ mi_matched m = mi_matched m' /\ mi_total m = mi_total m' /\
+      mi_bidders m = mi_bidders m' /\ (forall u, mi_alloc m u = mi_alloc m' u) /\ (forall u, mi_refund m u = mi_refund m' u)
+  | None, None => True
+  | _, _ => False
+  end.
+Proof. exact calc_batch_store_order. Qed.
+Print Assumptions C14_matching_store_order.
+
 (* the model's step is a function: equal inputs, equal outputs (state, ordered transfers, ordered hook trace) *)
 Theorem C14_step_functional : forall s o s1 s2 r1 r2, step s o = (r1, s1) -> step s o = (r2, s2) -> r1 = r2 /\ s1 = s2.
 Proof. intros s o s1 s2 r1 r2 H1 H2. rewrite H1 in H2. inversion H2. split; reflexivity. Qed.
